@@ -656,6 +656,107 @@ pub fn run() {
         check_circuit("compound-heavy", i, &hc);
     });
 
+    // size edges: 7-8 qubits with parity phases of arity up to 8 (float comparison: the exact
+    // ring on 256x256 matrices is too slow), 100-300 gates on 2-3 qubits, phase denominators
+    // above 2^16
+    par_cases("wide-compound", t.pick(60usize, 4_000usize), move |r, i| {
+        let n = 7 + r.below(2);
+        let depth = 1 + r.below(6);
+        let mut gates = vec![];
+        for _ in 0..depth {
+            let mut qs: Vec<usize> = (0..n).collect();
+            r.shuffle(&mut qs);
+            let g = match r.below(8) {
+                0 => G::Ccz(qs[0], qs[1], qs[2]),
+                1 => G::Ccx(qs[0], qs[1], qs[2]),
+                2 => G::H(qs[0]),
+                3 => G::Cx(qs[0], qs[1]),
+                4 => G::Swap(qs[0], qs[1]),
+                _ => {
+                    let w = *r.pick(&[1usize, 2, 5, 6, 7, 8]);
+                    qs.truncate(w.min(n));
+                    G::Pp(qs, gen_ph(r, PhPool::Float))
+                }
+            };
+            gates.push(g);
+        }
+        // one phase outside the pi/4 grid keeps the whole case on the float path
+        gates.push(G::Rz(r.below(n), (1, 5)));
+        check_circuit("wide-compound", i, &Circ { n, gates });
+    });
+    par_cases("long-narrow", t.pick(150usize, 8_000usize), move |r, i| {
+        let n = 2 + r.below(2);
+        let d = *r.pick(&[100usize, 180, 300]);
+        let mut p = CircParams::unitary(n, d, PhPool::Exact);
+        p.min_qubits = n;
+        let hc = gen_circuit(r, &p);
+        check_circuit("long-narrow", i, &hc);
+    });
+    // 1000-4200 gates on 1-2 qubits (block sizes such as 512 / 1024 / 4096 are crossed, with
+    // lengths that are and are not multiples of them)
+    par_cases("very-long", t.pick(120usize, 6_000usize), move |r, i| {
+        let n = 1 + r.below(2);
+        let len = *r.pick(&[1000usize, 1024, 1025, 1030, 2048, 2100, 4096, 4200]) + if r.chance(0.3) { r.below(7) } else { 0 };
+        let mut p = CircParams::unitary(n, len, PhPool::Exact);
+        p.min_qubits = n;
+        p.ccz = false;
+        p.pp = r.chance(0.3);
+        let mut hc = gen_circuit(r, &p);
+        // gen_circuit draws a depth <= len: top up to the intended length with copies of its own gates
+        let mut k = 0;
+        while hc.gates.len() < len && !hc.gates.is_empty() {
+            hc.gates.push(hc.gates[k].clone());
+            k += 1;
+        }
+        check_circuit("very-long", i, &hc);
+    });
+    // concatenation of very unequal lengths, in both orders
+    par_cases("concat-unequal", t.pick(150usize, 8_000usize), move |r, i| {
+        let n = 1 + r.below(2);
+        let long = *r.pick(&[512usize, 600, 1024, 1100, 2500]);
+        let short = *r.pick(&[1usize, 2, 3, 8, 40, 64]);
+        let mut pl = CircParams::unitary(n, long, PhPool::Exact);
+        pl.min_qubits = n;
+        pl.ccz = false;
+        let mut a = gen_circuit(r, &pl);
+        let mut k = 0;
+        while a.gates.len() < long && !a.gates.is_empty() {
+            a.gates.push(a.gates[k].clone());
+            k += 1;
+        }
+        let mut ps = CircParams::unitary(n, short, PhPool::Exact);
+        ps.min_qubits = n;
+        ps.ccz = false;
+        let mut b = gen_circuit(r, &ps);
+        if b.gates.is_empty() {
+            b.gates.push(G::T(0));
+        }
+        if r.chance(0.5) {
+            check_concat("concat-unequal", i, &b, &a);
+        } else {
+            check_concat("concat-unequal", i, &a, &b);
+        }
+    });
+    par_cases("big-denominators", t.pick(1500usize, 60_000usize), move |r, i| {
+        let mut hc = gen_circuit(r, &CircParams::unitary(4, 12, PhPool::Float));
+        for g in hc.gates.iter_mut() {
+            if let G::Rz(_, p) | G::Rx(_, p) | G::Pp(_, p) = g {
+                if r.chance(0.7) {
+                    let d = *r.pick(&[65_537i64, 65_536 * 3, 1_000_003, (1 << 31) - 1, (1 << 40) + 15, 1 << 50]);
+                    let k = match r.below(4) {
+                        0 => 1,
+                        1 => d - 1,
+                        2 => -(d - 1),
+                        _ => r.range(-d + 1, d),
+                    };
+                    let q = quizx::phase::Phase::new(num::rational::Rational64::new(k, d)).to_rational();
+                    *p = (*q.numer(), *q.denom());
+                }
+            }
+        }
+        check_circuit("big-denominators", i, &hc);
+    });
+
     // exhaustive single gates: every kind x every ordered qubit tuple x phase list
     let max_n = t.pick(5usize, 6usize);
     let mut space: Vec<Circ> = vec![];
